@@ -31,7 +31,14 @@ type c20Case struct {
 	input []byte
 	env   [][2]string
 	files []c20File
+	obls  []c20Obl // what the generator knows about the macro references it wrote (c20GenOddRefs)
 }
+
+// c20Obl: the generator wrote the reference `ref` into an argument of the directive named `dir`.
+// class: wd / wu = the reference is the whole argument and the macro is / is not declared at that point;
+// ed = inside a longer argument, macro declared; eu = inside a longer argument, macro not declared and the
+// name is an ordinary one; edx = inside a longer argument, macro declared, `$` in its name.
+type c20Obl struct{ dir, class, ref string }
 
 const c20NestLimit = 257 // deepest node the parser itself can produce (readNodes: nesting > 255)
 
@@ -71,6 +78,9 @@ func (cs *c20Case) opArgs() string {
 		b.WriteString(" | f " + strconv.Itoa(f.id) + " " + vh.HexRunes(f.name) + " " + vh.HexBytes(f.content))
 	}
 	b.WriteString(c20Tables(cs))
+	for _, o := range cs.obls {
+		b.WriteString(" | r " + vh.HexRunes(o.dir) + " " + o.class + " " + vh.HexRunes(o.ref))
+	}
 	return b.String()
 }
 
@@ -97,6 +107,11 @@ func c20ParseOp(op string) (*c20Case, string) {
 		case "f":
 			id, _ := strconv.Atoi(f[i+1])
 			cs.files = append(cs.files, c20File{name: vh.UnhexRunes(f[i+2]), id: id, content: vh.UnhexBytes(f[i+3])})
+			i += 4
+		case "r":
+			if i+3 < len(f) {
+				cs.obls = append(cs.obls, c20Obl{vh.UnhexRunes(f[i+1]), f[i+2], vh.UnhexRunes(f[i+3])})
+			}
 			i += 4
 		default:
 			i++
@@ -407,7 +422,8 @@ func c20WellFormed(ns []Node) string {
 // that was left alone: it can be assembled from pieces (`x$(a$(b)$(b)c)` with `$(b)` undefined gives
 // `x$(ac)`; a value `(` or `$`; `{env:X}` with X="$(m1)"). The rule is applied to the cases where nothing
 // of that kind is possible (c20PlainRefs): every token that contains `$(` consists of plain references
-// `$(name)` (name without `$`, `(`, `)`) and text without parentheses, and no macro or environment value
+// `$(name)` (name without `$`, `(`, `)`) and text without parentheses — or is as a whole one reference
+// `$(`…`)` with any name free of parentheses (c20WholeRefRe) —, and no macro or environment value
 // contains `$`, `(` or `)`. In such a case the reader's own reference syntax (`$(` + characters other
 // than `$` + `)`, or a whole argument from `$(` to `)`) recognises exactly the plain references, each is
 // replaced by a value without `$(`, and so NO `$(` may be left anywhere in the tree.
@@ -432,6 +448,11 @@ func c20ResidualRef(ns []Node) string {
 
 var c20PlainRefRe = regexp.MustCompile(`\$\([^$()]+\)`)
 
+// A token that is a reference as a whole, `$(` … `)` with no further parenthesis: whatever stands between
+// (nothing, `$`, blanks, quotes) is the name, and as an argument it is replaced by the macro's values or
+// stands for no argument (round 6). Inside a longer token only the plain form above is a reference.
+var c20WholeRefRe = regexp.MustCompile(`^\$\([^()]*\)$`)
+
 // c20PlainRefs: see above. Tokens are taken from the real lexer; a token is (over-approximately) part of
 // a macro declaration when it follows, on the same logical line, a token that starts with `$(` and
 // stands where a directive name can stand (start of a line, or right after a brace).
@@ -455,6 +476,9 @@ func c20PlainRefs(cs *c20Case) bool {
 				inDecl = false
 			}
 			rest := c20PlainRefRe.ReplaceAllString(t, "")
+			if c20WholeRefRe.MatchString(t) {
+				rest = ""
+			}
 			if strings.Contains(t, "$(") && strings.ContainsAny(rest, "()") {
 				return false
 			}
@@ -613,6 +637,9 @@ func (rn *c20Runner) runCase(out *vh.Out, cs *c20Case, withPrint bool, tag strin
 		if s := c20ResidualRef(res.nodes); s != "" {
 			out.Violation("C20/ill-formed-output", op, s)
 		}
+	}
+	if len(cs.obls) != 0 {
+		c20CheckObls(out, op, cs, res.nodes)
 	}
 	var pr strings.Builder
 	c20Print(res.nodes, &pr)
@@ -1011,6 +1038,356 @@ func c20GenEmbedded(r *vh.Rng) (*c20Case, string) {
 	return cs, "embedded-ref"
 }
 
+// ---- references to macros with unusual names, whole arguments and inside arguments (round 6)
+//
+// A macro declaration accepts any text between `$(` and `)` as the name (only the empty name cannot be
+// declared: `$() = v` is read as a directive called `$()`). The generator declares macros with such names
+// and writes references to them — and to names that are not declared — keeping a record of every
+// reference: the directive it stands in (every directive of a case has its own name), whether it is the
+// whole argument, and whether the macro is declared AT THAT POINT of the text (declarations are top-level
+// lines of the same file; a snippet body is expanded where it is written). The record travels in the op
+// line (`| r <directive> <class> <reference>`) so that a replay checks the same obligations. It is
+// derived from what the generator wrote, never from what the reader made of it.
+//
+// Literal text, macro values and environment values contain no `(` or `)` and no name contains `$(`, so a
+// text `$(name)` in the output can only be a reference that was copied from the input.
+//
+// What is demanded (c20CheckObls), in the directive the reference was written into:
+//   wd, wu  a reference that is the whole argument does not remain as an argument, declared or not
+//           (declared: its values stand there; not declared: it stands for no argument);
+//   ed      a reference to a declared macro inside a longer argument does not remain in any argument;
+//   eu      the same for an undeclared macro with an ordinary name (not empty, no `$`, `(`, `)`), as in
+//           the residual-reference rule of round 4;
+//   edx     = ed for a name that contains `$`. The unchanged reader violates this one (its pattern for
+//           references inside a string excludes `$` from names although declarations and whole-argument
+//           references accept it): reported under its own signature, a known finding.
+// A reference inside a longer argument to an UNDECLARED macro whose name is empty or contains `$`, `(` or `)`
+// carries no obligation: it is text.
+
+var c20OddNames = []string{
+	"", "", "$", "$", "dom$1", "dom$1", "a$", "$x", "$$", "1$", "a$b$c", "$ ", "us$er name",
+	"a b", " ", "a\tb", "a\"b", "\"", "'", "a  b",
+	"a(b", "(", "((", "a)b", ")", "a)", "))", "()", "(x)", ")(", "a) b",
+	"=", "{", "}", "a{b}", "#", "a#b", "\\", "a\\b", "*", ",", ";x", "%d", "&", "!", "a/b",
+	"é", "日本", "٣", "a.b", "x-y", "1", "dom", "host", "m1", "import", "A",
+}
+
+func c20NameClassOrdinary(name string) bool { return name != "" && !strings.ContainsAny(name, "$()") }
+
+type c20OddGen struct {
+	r     *vh.Rng
+	names []string // the names this case plays with
+	obls  []c20Obl
+	nDir  int
+	// per directive: names referenced as a whole argument / inside an argument without obligation. The
+	// two sets are kept disjoint: what is around a reference can vanish ({env:H}, other references), and
+	// a reference that may stay must not be mistaken for a whole-argument reference that must not.
+	whole, free map[string]bool
+}
+
+// tok writes a token text in the configuration syntax; ok=false when it cannot be written.
+func (g *c20OddGen) tok(s string) (string, bool) {
+	need := s == "" || strings.HasPrefix(s, "\"") || strings.ContainsAny(s, "#") || s == "{" || s == "}"
+	for _, ch := range s {
+		if unicode.IsSpace(ch) {
+			need = true
+		}
+	}
+	if !need && !g.r.Chance(20) {
+		return s, true
+	}
+	if !c20Quotable(s) {
+		return "", false
+	}
+	return c20Quote(s), true
+}
+
+var c20OddLits = []string{"", "", "", "pre-", "-post", "/etc/", "/x", "user@", ".example.org", ":25", "a b", "é", "=", "_", "{", "}x", "#", "$", "{env:H}", "\"", "\\", "'", "x"}
+var c20OddVals = []string{"example.org", "mx.example.org", "10", "a b", "", "v-1", "é", "x=y", "_"}
+
+func (g *c20OddGen) lit() string  { return c20OddLits[g.r.Intn(len(c20OddLits))] }
+func (g *c20OddGen) name() string { return g.names[g.r.Intn(len(g.names))] }
+
+// arg writes one argument of the directive dir; declared: name → number of values, at this point of the text.
+func (g *c20OddGen) arg(dir string, declared map[string]int) string {
+	r := g.r
+	for {
+		var text string
+		var obls []c20Obl
+		var newWhole, newFree []string
+		clash := false
+		emb := func(name string) string {
+			ref := "$(" + name + ")"
+			n, isDecl := declared[name]
+			if isDecl && n > 1 && !r.Chance(8) {
+				// several values inside a string: an error of the reader, kept rare
+				return "x"
+			}
+			switch {
+			case isDecl && strings.Contains(name, "$"):
+				obls = append(obls, c20Obl{dir, "edx", ref})
+				// (the unchanged reader leaves it, see above: not to be mistaken for a whole argument either)
+				newFree = append(newFree, name)
+				clash = clash || g.whole[name]
+			case isDecl:
+				obls = append(obls, c20Obl{dir, "ed", ref})
+			case c20NameClassOrdinary(name):
+				obls = append(obls, c20Obl{dir, "eu", ref})
+			default:
+				newFree = append(newFree, name)
+				clash = clash || g.whole[name]
+			}
+			return ref
+		}
+		switch x := r.Intn(100); {
+		case x < 40:
+			name := g.name()
+			text = "$(" + name + ")"
+			newWhole = append(newWhole, name)
+			clash = clash || g.free[name]
+			if _, isDecl := declared[name]; isDecl {
+				obls = append(obls, c20Obl{dir, "wd", text})
+			} else {
+				obls = append(obls, c20Obl{dir, "wu", text})
+			}
+		case x < 80:
+			pre, post := g.lit(), g.lit()
+			if pre == "" && post == "" {
+				if r.Bool() {
+					pre = "x"
+				} else {
+					post = "y"
+				}
+			}
+			text = pre + emb(g.name()) + post
+		default:
+			text = g.lit() + emb(g.name()) + g.lit() + emb(g.name()) + g.lit()
+		}
+		if clash {
+			continue
+		}
+		if t, ok := g.tok(text); ok {
+			g.obls = append(g.obls, obls...)
+			for _, n := range newWhole {
+				g.whole[n] = true
+			}
+			for _, n := range newFree {
+				g.free[n] = true
+			}
+			return t
+		}
+	}
+}
+
+func (g *c20OddGen) dirName() string {
+	g.nDir++
+	return "o" + strconv.Itoa(g.nDir)
+}
+
+// directive writes `name args…` (+ optional block with one more directive / an import of the snippet)
+func (g *c20OddGen) directive(b *strings.Builder, declared map[string]int, depth int, snip string) {
+	r := g.r
+	dir := g.dirName()
+	g.whole, g.free = map[string]bool{}, map[string]bool{}
+	b.WriteString(strings.Repeat(" ", depth) + dir)
+	for k := 1 + r.Intn(3); k > 0; k-- {
+		b.WriteString(" " + g.arg(dir, declared))
+	}
+	if depth < 2 && r.Chance(25) {
+		b.WriteString(" {\n")
+		for k := r.Intn(3); k > 0; k-- {
+			g.directive(b, declared, depth+1, snip)
+		}
+		if snip != "" && r.Chance(50) {
+			b.WriteString(strings.Repeat(" ", depth+1) + "import " + snip + "\n")
+		}
+		b.WriteString(strings.Repeat(" ", depth) + "}")
+	}
+	b.WriteString("\n")
+}
+
+// decl writes a declaration of name and returns the number of values it has.
+func (g *c20OddGen) decl(b *strings.Builder, name string, declared map[string]int) {
+	r := g.r
+	for {
+		t, ok := g.tok("$(" + name + ")")
+		if !ok {
+			continue
+		}
+		val := func() string {
+			for {
+				if v, ok := g.tok(c20OddVals[r.Intn(len(c20OddVals))]); ok {
+					return v
+				}
+			}
+		}
+		switch x := r.Intn(100); {
+		case x < 70:
+			b.WriteString(t + " = " + val() + "\n")
+			declared[name] = 1
+		case x < 82:
+			b.WriteString(t + " = " + val() + " " + val() + "\n")
+			declared[name] = 2
+		case x < 90:
+			// declared from a reference to something undeclared: no value at all
+			u, ok := g.tok("$(never " + name + ")")
+			if !ok {
+				continue
+			}
+			b.WriteString(t + " = " + u + "\n")
+			declared[name] = 0
+		default:
+			// declared from another macro of the case (whatever it is at this point)
+			other := g.name()
+			u, ok := g.tok("$(" + other + ")")
+			if !ok {
+				continue
+			}
+			b.WriteString(t + " = " + u + "\n")
+			declared[name] = declared[other] // 0 when not declared
+		}
+		return
+	}
+}
+
+func c20GenOddRefs(r *vh.Rng) (*c20Case, string) {
+	cs := &c20Case{files: c20DirEntries()}
+	g := &c20OddGen{r: r}
+	pick := func(k int) []string {
+		var out []string
+		for len(out) < k {
+			n := c20OddNames[r.Intn(len(c20OddNames))]
+			dup := false
+			for _, o := range out {
+				dup = dup || o == n
+			}
+			if !dup {
+				out = append(out, n)
+			}
+		}
+		return out
+	}
+	all := pick(3 + r.Intn(4))
+	g.names = all
+	var b strings.Builder
+	declared := map[string]int{}
+
+	// an imported file with names of its own (macros of a file are expanded in that file)
+	if r.Chance(20) {
+		mainNames := g.names
+		g.names = nil
+		for _, n := range pick(4) {
+			dup := false
+			for _, o := range mainNames {
+				dup = dup || o == n
+			}
+			if !dup {
+				g.names = append(g.names, n)
+			}
+		}
+		if len(g.names) != 0 {
+			var f strings.Builder
+			fdecl := map[string]int{}
+			for _, n := range g.names {
+				if n != "" && r.Chance(60) {
+					g.decl(&f, n, fdecl)
+				}
+				if r.Chance(50) {
+					g.directive(&f, fdecl, 0, "")
+				}
+			}
+			g.directive(&f, fdecl, 0, "")
+			cs.files = append(cs.files, c20File{"olib", 1, []byte(f.String())})
+		}
+		g.names = mainNames
+	}
+	useFile := len(cs.files) > 3
+
+	snip := ""
+	for _, name := range g.names {
+		if name != "" && r.Chance(40) {
+			g.decl(&b, name, declared) // declared before everything else; the others later, or never
+		}
+	}
+	n := 2 + r.Intn(5)
+	for i := 0; i < n; i++ {
+		switch x := r.Intn(100); {
+		case x < 25:
+			name := g.name()
+			if name == "" {
+				// `$() = v` is not a declaration; the directive name `$()` is refused
+				continue
+			}
+			g.decl(&b, name, declared)
+		case x < 45 && snip == "":
+			snip = "os"
+			b.WriteString("(os) {\n")
+			for k := 1 + r.Intn(2); k > 0; k-- {
+				g.directive(&b, declared, 1, "")
+			}
+			b.WriteString("}\n")
+		case x < 55 && snip != "":
+			b.WriteString("import " + snip + "\n")
+		case x < 62 && useFile:
+			b.WriteString("import olib\n")
+		default:
+			g.directive(&b, declared, 0, snip)
+		}
+	}
+	g.directive(&b, declared, 0, snip)
+	if r.Chance(50) {
+		cs.env = append(cs.env, [2]string{"H", []string{"example.org", "", "with space", "mx"}[r.Intn(4)]})
+	}
+	cs.input = []byte(b.String())
+	cs.obls = g.obls
+	return cs, "odd-ref"
+}
+
+// c20CheckObls: none of the references the generator wrote may still stand in the directive it was written into.
+func c20CheckObls(out *vh.Out, op string, cs *c20Case, ns []Node) {
+	byDir := map[string][]c20Obl{}
+	for _, o := range cs.obls {
+		byDir[o.dir] = append(byDir[o.dir], o)
+	}
+	reported := map[c20Obl]bool{}
+	var walk func(ns []Node)
+	walk = func(ns []Node) {
+		for _, n := range ns {
+			for _, o := range byDir[n.Name] {
+				left := ""
+				for _, a := range n.Args {
+					if (o.class[0] == 'w' && a == o.ref) || (o.class[0] == 'e' && strings.Contains(a, o.ref)) {
+						left = a
+					}
+				}
+				if left == "" {
+					out.Stat("odd-ref." + o.class + "=gone")
+					continue
+				}
+				out.Stat("odd-ref." + o.class + "=LEFT")
+				if reported[o] {
+					continue
+				}
+				reported[o] = true
+				switch o.class {
+				case "wd":
+					out.Violation("C20/ill-formed-output", op, "unexpanded macro reference left: "+strconv.Quote(o.ref)+", a whole argument of directive "+strconv.Quote(n.Name)+" that refers to a macro declared above, is still there")
+				case "wu":
+					out.Violation("C20/ill-formed-output", op, "unexpanded macro reference left: "+strconv.Quote(o.ref)+", a whole argument of directive "+strconv.Quote(n.Name)+" (macro not declared: stands for no argument), is still there")
+				case "ed":
+					out.Violation("C20/ill-formed-output", op, "unexpanded macro reference left: "+strconv.Quote(o.ref)+" refers to a macro declared above and is still in argument "+strconv.Quote(left)+" of directive "+strconv.Quote(n.Name))
+				case "eu":
+					out.Violation("C20/ill-formed-output", op, "unexpanded macro reference left: "+strconv.Quote(o.ref)+" (macro not declared) is still in argument "+strconv.Quote(left)+" of directive "+strconv.Quote(n.Name))
+				case "edx":
+					out.Violation("C20/macro-with-dollar-name-left-in-string", op, "unexpanded macro reference left: "+strconv.Quote(o.ref)+" refers to a macro declared above (its name contains `$`) and is still in argument "+strconv.Quote(left)+" of directive "+strconv.Quote(n.Name))
+				}
+			}
+			walk(n.Children)
+		}
+	}
+	walk(ns)
+}
+
 // ---- declarations closed by `}` on their own line (readNodes: `continue` past the shouldStop break)
 //
 // `x { $(m) = v }` and `x { (s) }` decrement ctx.nesting and carry on INSIDE the block: every following
@@ -1168,6 +1545,20 @@ var c20Fixed = []string{
 	"$(a) x y\n",
 	"$(a = 1 2\n",
 	"$() = 1\nx $() y$()\n",
+	"x $() tail\n",
+	"x head $($)\n",
+	"x { \n y \"$()\" $(a$b) z\n}\n",
+	"$(dom$1) = example.org\nx $(dom$1)\n",
+	"$(dom$1) = example.org\nx $(dom$1) user@$(dom$1)\n",
+	"$(a$) = x y\nblk {\n dir $(a$) z\n}\n",
+	"$($) = v\n$(w) = $($) $()\nx $(w) $($)\n",
+	"\"$(a b)\" = v w\nx \"$(a b)\" z\nx \"$( )\" \"$(a  b)\"\n",
+	"\"$(a\\\"b)\" = v\nx \"$(a\\\"b)\" \"p$(a\\\"b)q\"\n",
+	"$(a)b) = v\nx $(a)b) p$(a)b)q\n",
+	"$(a) = 1\n$(a)) = 2\nx $(a)) p$(a))q $(a)\n",
+	"$(() = v\n$()) = w\nx $(() p$(()q $()) p$())q\n",
+	"$(a)$(b) = v\n$(a) = 1\n$(b) = 2\nx $(a)$(b) y$(a)$(b)\n",
+	"$(=) = v\n$({) = w\nx $(=) $({) p$(=)q$({)\n",
 	"$($(x)) = 1 2\n",
 	"$(m) = 1\n$($(m)) = 2 3\n",
 	"a $(a)\n",
@@ -1287,6 +1678,11 @@ func TestVerifC20Parse(t *testing.T) {
 		if i%120 == 13 {
 			cs, tag := c20GenSameLine(r)
 			rn.runCase(out, cs, i%12 == 1, tag)
+			continue
+		}
+		if i%20 == 3 {
+			cs, tag := c20GenOddRefs(r)
+			rn.runCase(out, cs, i%3 == 0, tag)
 			continue
 		}
 		if i%20 == 9 {
